@@ -3,6 +3,7 @@
 package actor
 
 import (
+	"errors"
 	"time"
 
 	"github.com/kercylan98/vivid"
@@ -21,18 +22,29 @@ type vhUser struct{ Payload []byte }
 type vhCodec struct{}
 
 func (vhCodec) Encode(message any) ([]byte, error) {
+	if message == nil {
+		// like a JSON codec ("null"): the nil message of a failed PipeResult
+		return []byte{0}, nil
+	}
 	u, ok := message.(*vhUser)
 	if !ok {
 		return nil, vivid.ErrorIllegalArgument
 	}
-	out := make([]byte, len(u.Payload))
-	copy(out, u.Payload)
+	out := make([]byte, 1+len(u.Payload))
+	out[0] = 1
+	copy(out[1:], u.Payload)
 	return out, nil
 }
 
 func (vhCodec) Decode(data []byte) (any, error) {
-	out := make([]byte, len(data))
-	copy(out, data)
+	if len(data) == 0 {
+		return nil, vivid.ErrorIllegalArgument
+	}
+	if data[0] == 0 {
+		return nil, nil
+	}
+	out := make([]byte, len(data)-1)
+	copy(out, data[1:])
 	return &vhUser{Payload: out}, nil
 }
 
@@ -204,13 +216,23 @@ func VH_C12_envelope() {
 	case "PipeResult":
 		inner, innerCheck := vhPayload(maxlen)
 		m := &vivid.PipeResult{Id: vhStr(maxlen), Message: inner}
-		switch vrtChoose(3) {
+		plain := false
+		switch vrtChoose(5) {
 		case 1:
 			m.Error = vivid.ErrorFutureTimeout
 			vrtReach("pipe-error-registered")
 		case 2:
 			m.Error = vivid.ErrorActorDeaded.WithMessage("x" + vhStr(maxlen))
 			vrtReach("pipe-error-custom-message")
+		case 3:
+			// a failure that is not a *vivid.Error (e.g. the target replied with a
+			// plain error): it travels as the generic exception error
+			m.Error = errors.New("boom")
+			plain = true
+			vrtReach("pipe-error-plain")
+		case 4:
+			m.Error = vivid.ErrorException
+			vrtReach("pipe-error-exception")
 		}
 		msg = m
 		check = func(got vivid.Message) {
@@ -218,7 +240,10 @@ func VH_C12_envelope() {
 			vrtAssert(ok && g.Id == m.Id, "roundtrip-equal")
 			innerCheck(g.Message, "roundtrip-equal")
 			vrtAssert((g.Error == nil) == (m.Error == nil), "roundtrip-equal")
-			if m.Error != nil && g.Error != nil {
+			if m.Error != nil && g.Error != nil && plain {
+				ge, ok := g.Error.(*vivid.Error)
+				vrtAssert(ok && ge.GetCode() == vivid.ErrorException.GetCode(), "roundtrip-equal")
+			} else if m.Error != nil && g.Error != nil {
 				ge, ok := g.Error.(*vivid.Error)
 				me := m.Error.(*vivid.Error)
 				vrtAssert(ok && ge.GetCode() == me.GetCode() && ge.GetMessage() == me.GetMessage(), "roundtrip-equal")
